@@ -31,6 +31,10 @@ KEYWORD_LIST = [
     "recursive",
     "abstract",
     "external",
+    "value",
+    "volatile",
+    "protected",
+    "asynchronous",
 ]
 KEYWORD_ID_DICT = {keyword: ind for (ind, keyword) in enumerate(KEYWORD_LIST)}
 
